@@ -235,11 +235,27 @@ func genC20(r *Rng, tier string, idx int) *c20Case {
 	frame := int64(r.Pick(0, 1000, 123456789, 1<<40))
 	extBase := int64(r.Pick(0, 5000, 1<<33, -50))
 	illegalPct := r.Pick(0, 10, 25, 40)
+	// burst modes: enough side-file content between two flushes (1 s / 10 s tickers, STOP) to cross the
+	// 4096-byte buffers of the writers at varying alignments
+	extBurst := r.Chance(12) // blocks with 1..600 external triggers
+	dropBurst := r.Chance(4) // hundreds of blocks that report dropped frames (22 bytes per line)
+	blockPct := 50
+	if dropBurst {
+		nops = r.Range(150, 450)
+		blockPct = 90
+		extBurst = false
+	} else if extBurst {
+		nops = r.Range(3, 25)
+	}
+	if extBurst || dropBurst { // start a run early so that the content is recorded
+		c.ops = append(c.ops, c20Op{kind: "Q", req: "START", l22: true})
+		active = true
+	}
 	for k := 0; k < nops; k++ {
 		switch x := r.Intn(100); {
-		case x < 50: // a block
+		case x < blockPct: // a block
 			op := c20Op{kind: "B", nsamples: r.Pick(1, 4, 8, 9, 20), first: frame}
-			if r.Chance(30) {
+			if r.Chance(30) || (dropBurst && r.Chance(85)) {
 				op.dropped = r.Pick(1, 2, 7, 1000, 99999999)
 			}
 			if r.Chance(4) {
@@ -247,6 +263,9 @@ func genC20(r *Rng, tier string, idx int) *c20Case {
 			}
 			if r.Chance(55) {
 				n := r.Pick(1, 1, 2, 3, 10, 40)
+				if extBurst {
+					n = r.Pick(1, 7, 50, 100, 200, 300, 493, 494, 495, 500, 511, 512, 513, 600, r.Range(1, 600), r.Range(1, 600))
+				}
 				for j := 0; j < n; j++ {
 					extBase += int64(r.Range(0, 300))
 					v := extBase
@@ -261,7 +280,7 @@ func genC20(r *Rng, tier string, idx int) *c20Case {
 				frame = op.first + int64(op.nsamples)
 			}
 			c.ops = append(c.ops, op)
-		case x < 74: // a state label
+		case x < blockPct+24: // a state label
 			lab := c20Label(r)
 			if r.Chance(8) {
 				lab = ""
@@ -328,7 +347,7 @@ func genC20(r *Rng, tier string, idx int) *c20Case {
 }
 
 func init() {
-	caseGens["C20"] = caseGen{count: c06Count(1500, 8000), gen: func(r *Rng, tier string, idx int) (string, func() string) {
+	caseGens["C20"] = caseGen{count: c06Count(1500, 5000), gen: func(r *Rng, tier string, idx int) (string, func() string) {
 		c := genC20(r, tier, idx)
 		return c.input(), c.run
 	}}
